@@ -4,7 +4,7 @@ from __future__ import annotations
 import ast
 import itertools
 
-from ..decision import Raises, cond, decide
+from ..decision import IdentityOfValues, Raises, cond, decide
 from ..lang import Unsupported
 from ..model import AnalysisError, body_wo_doc, norm, walk_no_nested
 
@@ -223,6 +223,14 @@ def _cmp(ctx, methods):
             except Unsupported as e:
                 ctx.error('C18.D2', '_cmp is not a comparison skeleton: %s' % e)
                 return
+            except IdentityOfValues as e:
+                ctx.violation('C18.D2', '%s::Version._cmp' % F, e.text,
+                              "Version('2.0rc1') == Version('2.0rc1') is False (and > is True in both directions): the suffixes are "
+                              "compared with `%s`, i.e. by object identity -- two separately parsed equal suffixes are different "
+                              "string objects (single characters only look equal because CPython shares them)" % e.text,
+                              '_cmp compares version suffixes by identity instead of by value', file=F, line=fn.lineno,
+                              engine='E6')
+                return
             if rel.startswith('lt'):
                 want = -1
             elif rel.startswith('gt'):
@@ -407,7 +415,159 @@ def _hash(ctx, methods):
             return
         ctx.error('C18.D3', '__hash__ returns self.%s, whose computation is not recognised' % attr)
         return
-    ctx.error('C18.D3', '__hash__ has an unrecognised form: %r' % text)
+    # any other body: evaluate it with the small interpreter below on representatives of the padding classes
+    groups = [[((2,), None), ((2, 0), None), ((2, 0, 0), None)], [((2, 1), None), ((2, 1, 0), None)],
+              [((1,), 'a'), ((1, 0), 'a')], [((0,), None), ((0, 0), None)], [((10,), None), ((10, 0), None)],
+              [((3, 0, 1), 'rc1'), ((3, 0, 1, 0), 'rc1')]]
+    try:
+        for grp in groups:
+            keys = [_mini_run(body, {s: {'version_nums': nums, 'version_extra': extra}}) for nums, extra in grp]
+            if any(k != keys[0] for k in keys[1:]):
+                i = [k != keys[0] for k in keys].index(True)
+                a = '.'.join(map(str, grp[0][0])) + (grp[0][1] or '')
+                b = '.'.join(map(str, grp[i][0])) + (grp[i][1] or '')
+                ctx.violation('C18.D3', '%s::Version.__hash__' % F, text[:200],
+                              "Version('%s') == Version('%s') but their hashes are taken from %r and %r: a set holding one does "
+                              "not contain the other" % (a, b, keys[0], keys[i]),
+                              '__hash__ is not invariant under the zero-padding that == ignores', file=F, line=fn.lineno,
+                              engine='E6')
+                return
+        ctx.ob('C18.D3', '__hash__ evaluated on %d padding classes: equal versions hash from equal keys' % len(groups), True, where)
+    except _MiniUnsupported as e:
+        ctx.error('C18.D3', '__hash__ has an unrecognised form (%s): %r' % (e, text[:120]))
+
+
+class _MiniUnsupported(Exception):
+    pass
+
+
+def _mini_run(body, env, fuel=400):
+    """Evaluate a straight-line/while/if body over tuples, ints, strings and None (the fields of a Version); `hash(x)` is
+    the identity marker ('hash', x).  Anything else raises _MiniUnsupported."""
+    env = dict(env)
+    state = {'fuel': fuel}
+
+    def ev(e):
+        if isinstance(e, ast.Constant):
+            return e.value
+        if isinstance(e, ast.Name):
+            if e.id in env:
+                return env[e.id]
+            raise _MiniUnsupported('name %s' % e.id)
+        if isinstance(e, ast.Attribute):
+            base = ev(e.value)
+            if isinstance(base, dict) and e.attr in base:
+                return base[e.attr]
+            raise _MiniUnsupported('attribute %s' % e.attr)
+        if isinstance(e, ast.Tuple):
+            return tuple(ev(x) for x in e.elts)
+        if isinstance(e, ast.UnaryOp):
+            v = ev(e.operand)
+            if isinstance(e.op, ast.USub):
+                return -v
+            if isinstance(e.op, ast.Not):
+                return not v
+            raise _MiniUnsupported('unary')
+        if isinstance(e, ast.BinOp):
+            l, r = ev(e.left), ev(e.right)
+            if isinstance(e.op, ast.Add):
+                return l + r
+            if isinstance(e.op, ast.Sub):
+                return l - r
+            if isinstance(e.op, ast.BitXor):
+                return ('xor', l, r)
+            raise _MiniUnsupported('operator %s' % type(e.op).__name__)
+        if isinstance(e, ast.BoolOp):
+            if isinstance(e.op, ast.And):
+                v = True
+                for x in e.values:
+                    v = ev(x)
+                    if not v:
+                        return v
+                return v
+            v = False
+            for x in e.values:
+                v = ev(x)
+                if v:
+                    return v
+            return v
+        if isinstance(e, ast.Compare):
+            l = ev(e.left)
+            for op, r_ in zip(e.ops, e.comparators):
+                r = ev(r_)
+                ok = {ast.Eq: lambda a, b: a == b, ast.NotEq: lambda a, b: a != b, ast.Lt: lambda a, b: a < b,
+                      ast.LtE: lambda a, b: a <= b, ast.Gt: lambda a, b: a > b, ast.GtE: lambda a, b: a >= b,
+                      ast.Is: lambda a, b: a is b, ast.IsNot: lambda a, b: a is not b}.get(type(op))
+                if ok is None:
+                    raise _MiniUnsupported('comparison')
+                if not ok(l, r):
+                    return False
+                l = r
+            return True
+        if isinstance(e, ast.Subscript):
+            base = ev(e.value)
+            if not isinstance(base, (tuple, str)):
+                raise _MiniUnsupported('subscript base')
+            if isinstance(e.slice, ast.Slice):
+                lo = ev(e.slice.lower) if e.slice.lower is not None else None
+                hi = ev(e.slice.upper) if e.slice.upper is not None else None
+                st = ev(e.slice.step) if e.slice.step is not None else None
+                return base[lo:hi:st]
+            try:
+                return base[ev(e.slice)]
+            except IndexError:
+                raise _MiniUnsupported('index error')
+        if isinstance(e, ast.Call):
+            f = norm(e.func)
+            args = [ev(a) for a in e.args]
+            if f == 'hash' and len(args) == 1:
+                return ('hash', args[0])
+            if f == 'len' and len(args) == 1:
+                return len(args[0])
+            if f == 'tuple' and len(args) == 1:
+                return tuple(args[0])
+            if f == 'str' and len(args) == 1 and isinstance(args[0], (int, str)):
+                return str(args[0])
+            raise _MiniUnsupported('call %s' % f)
+        raise _MiniUnsupported(type(e).__name__)
+
+    def run(stmts):
+        for st in stmts:
+            state['fuel'] -= 1
+            if state['fuel'] < 0:
+                raise _MiniUnsupported('no termination within the step budget')
+            if isinstance(st, ast.Assign) and len(st.targets) == 1 and isinstance(st.targets[0], ast.Name):
+                env[st.targets[0].id] = ev(st.value)
+            elif isinstance(st, ast.AugAssign) and isinstance(st.target, ast.Name) and isinstance(st.op, (ast.Add, ast.Sub)):
+                cur = env.get(st.target.id)
+                v = ev(st.value)
+                env[st.target.id] = cur + v if isinstance(st.op, ast.Add) else cur - v
+            elif isinstance(st, ast.While):
+                while ev(st.test):
+                    state['fuel'] -= 1
+                    if state['fuel'] < 0:
+                        raise _MiniUnsupported('no termination within the step budget')
+                    r = run(st.body)
+                    if r is not None:
+                        return r
+            elif isinstance(st, ast.If):
+                r = run(st.body if ev(st.test) else st.orelse)
+                if r is not None:
+                    return r
+            elif isinstance(st, ast.Return):
+                return ('ret', ev(st.value) if st.value is not None else None)
+            elif isinstance(st, ast.Expr) and isinstance(st.value, ast.Constant):
+                continue
+            elif isinstance(st, ast.Pass):
+                continue
+            else:
+                raise _MiniUnsupported('statement %s' % type(st).__name__)
+        return None
+
+    r = run(body)
+    if r is None:
+        raise _MiniUnsupported('no return')
+    return r[1]
 
 
 def _nearest(ctx, m, methods):
